@@ -2,6 +2,7 @@
    well-formed block stream, and the loop itself: it gets exactly through `cutb` of the
    block list, never fails, and stops with UnexpectedEOFOnNextBlock or
    EndOfOriginalArchiveData. *)
+From MLA Require Import Limit.
 From MLA Require Import Base Stream Blocks Writer Repair RepairSpec RepairPure
   RepairProofs1 RepairProofs2 RepairProofs3.
 From Coq Require Import ZifyBool ZifyNat ZifyN.
@@ -28,6 +29,7 @@ Lemma cutb_nil_0 r : cutb r 0 = ([], false).
 Proof. destruct r as [|b r]; [reflexivity|]. apply cutb_lt. destruct b; cbn [bmin blen]; lia. Qed.
 
 Section Loop.
+  Context {LIM : Limit}.
   Variable S : Stream.
   Variable w : bytes.
   Variable R : st S -> N -> Prop.
